@@ -1,5 +1,7 @@
 """C10 — positions never negative.  Step-sync of position-changing operations and of the position validator against the Lean
 model; monitors: quantities >= 0, old quantity within range, T+1, rejected closes change nothing."""
+import random
+import bundle as B
 import tstream, monitors, sync_misc
 LEVEL = "proof"
 RULE = ("daily runs with buys/sells/closes within and across days, resting closing orders, splits between buy and sell, both directions of futures, "
@@ -26,6 +28,70 @@ def run(ctx):
             cfgk["accounts_mod"]["validate_stock_position"] = False
         return S, cfgk
     tstream.stream(ctx, ctx.n(60, 3000), corrs, [monitors.c10_monitor], gen=gen, extra_sync=lambda c, tr, ix: sync_misc.validators_sync(c, vc, tr, ix))
+    for _ in range(ctx.n(3, 40)):
+        midday_resume(ctx)
+
+
+def midday_resume(ctx):
+    """a back-test dies inside trading day T AFTER buying; its state is persisted on the crash and the run is resumed with start_date = T: for the rest of T the shares
+    bought on T stay locked (T+1) — the resumed run must not go through the morning of T again (which would release the lock)"""
+    import persist_mod, runner
+    rnd = random.Random(ctx.rnd.random())
+    S = B.gen_market(rnd, ndays=rnd.randrange(5, 8), n_stocks=1, with_future=False, opts={"kinds": ["CS"], "p_delist": 0, "p_split": 0, "p_div": 0, "p_sus": 0, "p_thin": 0, "p_limit": 0})
+    oid = S["stocks"][0]["id"]
+    days = [d for d in S["cal"] if S["start"] <= d <= S["end"]]
+    T = days[rnd.randrange(1, len(days) - 1)]
+    q = rnd.choice([100, 500, 1000])
+    cfg = dict(accounts={"stock": 1e6}, accounts_mod={"stock_t1": True}, sim={"volume_limit": False, "slippage": 0}, base_extra={"persist": True, "persist_mode": "on_crash"},
+               extra_mods={"rqv_persist": {"enabled": True, "lib": "persist_mod"}})
+    persist_mod.STORE.clear()
+    persist_mod.RESUME[0] = False
+    log = []
+
+    def init(context):
+        pass
+
+    def hb1(context, bar_dict):
+        import rqalpha.api as api
+        if context.now.date() == T:
+            o = api.order_shares(oid, q)
+            log.append(("buy", None if o is None else o.status.name, 0 if o is None else o.filled_quantity))
+            raise ValueError("crash after the purchase (injected by the harness)")
+    try:
+        with runner.bundle_dir(S) as p:
+            runner.run_real(S, cfg, {"init": init, "handle_bar": hb1}, path=p)
+            if not log or log[0][2] != q or "portfolio" not in persist_mod.STORE:
+                ctx.stats["midday_resume_runs_without_purchase"] += 1
+                return
+            persist_mod.RESUME[0] = True
+
+            def hb2(context, bar_dict):
+                import rqalpha.api as api
+                pp = api.get_position(oid)
+                if context.now.date() == T:
+                    log.append(("resumed", pp.quantity, pp.closable))
+                    o = api.order_shares(oid, -q)
+                    log.append(("sell", None if o is None else o.status.name, 0 if o is None else o.filled_quantity, api.get_position(oid).quantity))
+
+            def bt2(context):
+                log.append(("before_trading", context.now.date()))
+            _, exc2 = runner.run_real(S, dict(cfg, start=T), {"init": init, "handle_bar": hb2, "before_trading": bt2}, path=p)
+    finally:
+        persist_mod.STORE.clear()
+        persist_mod.RESUME[0] = False
+    ctx.evaluations += 1
+    ctx.stats["midday_resume_runs"] += 1
+    ctx.nontrivial("midday_resume", q)
+    rp = {"scenario": "midday_resume", "day": str(T), "quantity": q, "log": [str(x) for x in log]}
+    res = next((x for x in log if x[0] == "resumed"), None)
+    sell = next((x for x in log if x[0] == "sell"), None)
+    if exc2 is not None or res is None:
+        ctx.stats["midday_resume_runs_not_resumed"] += 1
+        return
+    if res[1] != q or res[2] != 0 or (sell is not None and (sell[2] or sell[3] != q)):
+        ctx.witness("C10.2", {"kind": "t_plus_one_after_midday_resume"}, "bought %s of %s on %s, the run died in that bar and was resumed on the same day: the resumed run sees quantity %s closable %s "
+                    "(T+1: 0 closable), a sale of %s on that day: %s; before_trading callbacks of the resumed run: %s"
+                    % (q, oid, T, res[1], res[2], q, sell, [str(x[1]) for x in log if x[0] == "before_trading"][:3]), rp)
 
 
 def replay(ctx, data):
